@@ -516,7 +516,7 @@ Section Analysis.
     nsub O (nmul O (nmul O (ndiv O (nofZ O 3) (nofZ O 2)) c) c) (nhalf O).
 
   (* value types as lists of components, with the operations of colvarvalue / the cvc metric *)
-  Inductive vkind := KScalar | KPeriodic (period center : T) | KVector3 | KUnit3.
+  Inductive vkind := KScalar | KPeriodic (period center : T) | KVector3 | KUnit3 | KQuat.
   Fixpoint lv_add (a b : list T) : list T :=
     match a, b with x :: ar, y :: br => nadd O x y :: lv_add ar br | _, _ => [] end.
   Fixpoint lv_sub (a b : list T) : list T :=
@@ -527,7 +527,7 @@ Section Analysis.
   (* colvarvalue::apply_constraints, then colvar::wrap (cvc::wrap: x -= floor((x - center)/period + 0.5) period) *)
   Definition lv_constrain (k : vkind) (a : list T) : list T :=
     match k with
-    | KUnit3 => let n := nsqrt O (vnorm2 a) in map (fun x => ndiv O x n) a
+    | KUnit3 | KQuat => let n := nsqrt O (vnorm2 a) in map (fun x => ndiv O x n) a
     | KPeriodic p c =>
         match a with
         | x :: _ => [nsub O x (nmul O (nofZ O (nfloor O (nadd O (ndiv O (nsub O x c) p) (nhalf O)))) p)]
@@ -552,6 +552,12 @@ Section Analysis.
         let c := vdot a b in
         let c1 := if nltb O (n1 O) c then n1 O else if nltb O c (nneg O (n1 O)) then nneg O (n1 O) else c in
         let th := nacos O c1 in nmul O th th
+    | KQuat =>     (* cvm::quaternion::dist2: q and -q are the same rotation *)
+        let c := vdot a b in
+        let c1 := if nltb O (n1 O) c then n1 O else if nltb O c (nneg O (n1 O)) then nneg O (n1 O) else c in
+        let om := nacos O c1 in
+        if nltb O (n0 O) c then nmul O om om
+        else let d := nsub O (nacos O (nneg O (n1 O))) om in nmul O d d
     | _ => vnorm2 (lv_sub a b)
     end.
   Definition lv_ops (k : vkind) : vops (V := list T) := mkVops lv_add lv_scale (lv_near k) (lv_constrain k) (lv_dist2 k).
